@@ -78,6 +78,21 @@ VF(f, a, b) == <<"F", f, a, b>>                \* folder f applied to (a, b)
 VStr(s) == <<"Str", s>>                        \* String sink: the concatenated tokens
 VE(tag) == <<"E", tag>>                        \* recovery fallback marker
 
+(* C19: the number of tracked allocations inside a value -- every value made by a user mapper *)
+(* (map, to, select, fold and map_with callbacks) carries one                                    *)
+RECURSIVE TrackCount(_)
+RECURSIVE TrackCountSeq(_)
+TrackCountSeq(s) == IF s = <<>> THEN 0 ELSE TrackCount(Head(s)) + TrackCountSeq(Tail(s))
+TrackCount(v) ==
+  CASE v[1] = "M" -> 1 + TrackCount(v[3])
+    [] v[1] = "K" -> 1
+    [] v[1] = "F" -> 1 + TrackCount(v[3]) + TrackCount(v[4])
+    [] v[1] = "W" -> 1 + TrackCount(v[2]) + TrackCount(v[5])
+    [] v[1] = "P" -> TrackCount(v[2]) + TrackCount(v[3])
+    [] v[1] \in {"L", "G", "A"} -> TrackCountSeq(v[2])
+    [] v[1] = "O" -> TrackCount(v[2])
+    [] OTHER -> 0
+
 (* the leftmost token inside a value, "" if there is none; the argument   *)
 (* of the shared filter / try_map / validate predicates                   *)
 RECURSIVE FirstTok(_)
